@@ -121,6 +121,10 @@ def run(ctx):
     for mode in ("commit", "plain"):
         for i in range(0, len(reps), 4):
             jobs.append({"part": "noncanon", "instance": inst0, "k": 1, "mode": mode, "ks": ["1"], "paths": reps[i:i + 4], "shard": 800 + i, "nshards": 0, "stride": 1})
+    # a circuit description with a lower grinding difficulty (0, 1): the proof stays valid, the proof-of-work witness stays a proof element
+    pw = [p for p in reps if p.endswith("PowWitness")]
+    for pb in (0, 1):
+        jobs.append({"part": "noncanon", "instance": inst0, "k": 1, "ks": ["1", KS[ctx.seed % 4]], "paths": pw + reps[:1], "pow_bits": pb, "shard": 900 + pb, "nshards": 0, "stride": 1})
     # one verifier chip used for two proofs (a batching caller): the sweep of the second proof must not be weakened by the first
     for pair in (("epochCb+epoch4R", "testdata+roottest") if thorough else ("epochCb+epoch4R",)):
         jobs.append({"part": "two", "instance": pair, "k": 1, "ks": ["noncanon"], "stride": 24 if thorough else 6, "shard": 70})
